@@ -64,6 +64,12 @@ func (vc *VC) bitTheory() {
 	sl := App("bshl", I, w, x, s)
 	add(Forall([]*Term{w, x, s, j}, Implies(ge0(s), Eq(wb(sl, j), And(ge0(j), lt(j, w), App(">=", SBool, j, s), wb(x, App("-", I, j, s))))), []*Term{wb(sl, j)}))
 	add(Forall([]*Term{w, x, s}, Implies(And(ge0(x), ge0(s), ge0(w)), And(ge0(sl), lt(sl, p2(w)))), []*Term{sl}))
+	// 1 << s and the low mask (1 << s) - 1
+	add(Forall([]*Term{w, s}, Implies(And(ge0(s), lt(s, w)), Eq(App("bshl", I, w, IntLit64(1), s), p2(s))), []*Term{App("bshl", I, w, IntLit64(1), s)}))
+	vc.declareFun("lowmask", []*Sort{I}, I)
+	lm := App("lowmask", I, s)
+	add(Forall([]*Term{s}, Implies(ge0(s), And(Eq(lm, App("-", I, p2(s), IntLit64(1))), ge0(lm))), []*Term{lm}))
+	add(Forall([]*Term{s, j}, Implies(ge0(s), Eq(wb(lm, j), And(ge0(j), lt(j, s)))), []*Term{wb(lm, j)}))
 	// a non-zero value has a lowest set bit
 	lb := App("lowbit", I, x)
 	add(Forall([]*Term{x}, Implies(App(">", SBool, x, IntLit64(0)), And(ge0(lb), wb(x, lb))), []*Term{lb}))
